@@ -505,11 +505,20 @@ pub fn child(seed: u64) {
 }
 
 fn proc_all_sleeping(pid: u32) -> Option<(bool, u64)> {
-    // (every thread in state S, total utime+stime of all threads)
+    // (every thread in state S, total utime+stime of all threads); when a
+    // process looks at itself, the looking thread is left out
     let mut all_sleep = true;
     let mut cpu = 0u64;
+    let own_tid = if pid == std::process::id() {
+        std::fs::read_link("/proc/thread-self").ok().and_then(|p| p.file_name().map(|n| n.to_os_string()))
+    } else {
+        None
+    };
     let dir = std::fs::read_dir(format!("/proc/{pid}/task")).ok()?;
     for t in dir.flatten() {
+        if Some(t.file_name()) == own_tid {
+            continue;
+        }
         let s = std::fs::read_to_string(t.path().join("stat")).ok()?;
         let rest = s.rsplit_once(')')?.1;
         let f: Vec<&str> = rest.split_whitespace().collect();
